@@ -2710,12 +2710,17 @@ class sptensor:
         if isinstance(other, ttb.tensor):
             # Find where their zeros interact
             otherzerosubs, _ = (other == 0).find()
-            zzerosubs = otherzerosubs[(self[otherzerosubs] == 0).transpose()[0], :]
+            zzerosubs = np.empty(shape=(0, other.ndims), dtype=int)
+            if otherzerosubs.size > 0:
+                zzerosubs = otherzerosubs[
+                    (self.extract(otherzerosubs) == 0).transpose()[0], :
+                ]
 
             # Find where their nonzeros intersect
             znzsubs = np.empty(shape=(0, other.ndims), dtype=int)
             if self.nnz > 0:
-                othervals = other[self.subs]
+                # A single subscript is returned as a scalar
+                othervals = np.atleast_1d(other[self.subs])
                 znzsubs = self.subs[(othervals[:, None] == self.vals).transpose()[0], :]
 
             return sptensor(
@@ -2817,20 +2822,24 @@ class sptensor:
         # Case 2b: y is a dense tensor
         if isinstance(other, ttb.tensor):
             # find entries where x is zero but y is nonzero
-            unionSubs = tt_union_rows(
-                self.subs, np.array(np.where(other.data == 0)).transpose()
-            )
+            otherzerosubs = np.array(np.where(other.data == 0)).transpose()
+            if self.nnz == 0:
+                unionSubs = otherzerosubs
+            else:
+                unionSubs = tt_union_rows(self.subs, otherzerosubs)
             if unionSubs.shape[0] != prod(self.shape):
                 subs1Idx = tt_setdiff_rows(self.allsubs(), unionSubs)
                 subs1 = self.allsubs()[subs1Idx]
             else:
-                subs1 = np.empty((0, self.ndims))
+                subs1 = np.empty((0, self.ndims), dtype=int)
             # find entries where x is nonzero but not equal to y
-            subs2 = np.empty((0, self.ndims))
+            subs2 = np.empty((0, self.ndims), dtype=int)
             if self.nnz > 0:
-                subs2 = self.subs[self.vals.transpose()[0] != other[self.subs], :]
+                subs2 = self.subs[
+                    self.vals.transpose()[0] != np.atleast_1d(other[self.subs]), :
+                ]
             if subs2.size == 0:
-                subs2 = np.empty((0, self.ndims))
+                subs2 = np.empty((0, self.ndims), dtype=int)
             # put it all together
             return ttb.sptensor(
                 np.vstack((subs1, subs2)),
